@@ -86,13 +86,14 @@ STRUCT2 = ["before", "after", "inside", "same_position", "different_position", "
 
 class SGen(fml.FGen):
     def __init__(self, rnd, cg, lits, opts=None):
-        o = dict(p_free=0.25, p_xpath=0.25, p_omit_name=0.3, p_omit_in=0.6, p_in_nt=0.1, p_clash=0.2, p_nasty=0.35,
+        o = dict(p_free=0.25, p_xpath=0.2, p_omit_name=0.3, p_omit_in=0.6, p_in_nt=0.1, p_clash=0.2, p_nasty=0.35,
                  numq=0.07, known=0.5, mexpr=0.4, opt=0.7, max_term_depth=3,
                  connectives=("and", "or", "not", "implies", "iff", "xor", "and", "or", "not"))
         o.update(opts or {})
         super().__init__(rnd, cg, lits, o)
         self.alts_with_nt = {k: [a for a in alts if any(is_nt(s) for s in a)] for k, alts in cg.items()}
         self.used_names = []
+        self.name_type = {}
         self.mexpr_bound = set()
         self.qkind = {}
         self.in_numq = 0
@@ -103,9 +104,19 @@ class SGen(fml.FGen):
 
     # -------------------------------------------------------------- names
     def new_name(self, scope_names, T=None):
+        """a variable name; deliberately re-uses names of disjoint scopes, the names the parser itself would
+        invent (T without brackets, x_0) and odd identifiers.  Cases drawn clear of the open findings re-use a
+        name only for the same type and stay away from names of the form x_<n>."""
+        rnd = self.rnd
+        n = self._new_name(scope_names, T)
+        self.name_type.setdefault(n, T)
+        return n
+
+    def _new_name(self, scope_names, T):
         rnd = self.rnd
         if self.used_names and chance(rnd, self.o["p_clash"]):
-            cand = [n for n in self.used_names if n not in scope_names]
+            cand = [n for n in self.used_names if n not in scope_names
+                    and (not self.avoid_known or self.name_type.get(n) == T)]
             if cand:
                 return pick(rnd, cand)
         r = rnd.random()
@@ -113,13 +124,14 @@ class SGen(fml.FGen):
             # the name the parser itself would invent for <T> (T without brackets), or its first renaming
             base = T[1:-1]
             if base not in fml_keywords() and base != "start":
-                n = base if chance(rnd, 0.5) else base + "_0"
-                if n not in scope_names:
+                n = base if (chance(rnd, 0.5) or self.avoid_known) else base + "_0"
+                if n not in scope_names and self.name_type.get(n, T) == T:
                     self.used_names.append(n)
                     return n
         if r < 0.22:
-            n = pick(rnd, ["x", "y", "v_0", "v_1", "x_0", "elem", "a-b", "_u", "X1", "v1_0"])
-            if n not in scope_names:
+            pool = ["x", "y", "elem", "a-b", "_u", "X1"] + ([] if self.avoid_known else ["v_0", "v_1", "x_0", "v1_0"])
+            n = pick(rnd, pool)
+            if n not in scope_names and (not self.avoid_known or self.name_type.get(n, T) == T):
                 self.used_names.append(n)
                 return n
         while True:
@@ -138,7 +150,7 @@ class SGen(fml.FGen):
         rnd = self.rnd
         segs = []
         cur = T
-        nsteps = rnd.randint(1, 3)
+        nsteps = pick(rnd, [1, 1, 2, 2, 3])
         for _ in range(nsteps):
             alts = self.alts_with_nt.get(cur) or []
             if not alts:
